@@ -433,7 +433,10 @@ def _corrupt(ev):
         elif op == "crc_deb":
             e["cases"][0][2] = [0, "BadCrc"]
         elif op == "feed":
-            e["rem_len"] += 1
+            if e.get("kind") in ("Consumed", "Success", "DeserError"):
+                e["rem_len"] += 1        # a result that claims to have consumed one byte less
+            else:
+                e["idx"] += 1            # OverFull may consume any amount: falsify the reported fill level instead
         elif op == "io_ser":
             e["written"].append(0)
         elif op == "io_de" and e["msgs"] and e["msgs"][0]["res"].get("ok") == 1:
